@@ -17,7 +17,13 @@ PROTOKEYS = [
     ("gopherplus+", "gopherplus", "+"), ("sgopherplus$", "sgopherplus", "$"), ("http", "http", "+"),
     ("https", "https", "+"), ("wap", "wap", "+"), ("gemini", "gemini", "+"), ("spartan", "spartan", "+"),
 ]
-KEYIDX = {k: i for i, (k, _, _) in enumerate(PROTOKEYS)}
+# listing requests in which the client sends more after the request line (a header block, a Spartan body)
+EXTRA = [("wap-headers", "GET /wap%s HTTP/1.0\r\nHost: gopher.example\r\nUser-Agent: phone/1.0\r\n\r\n", False),
+         ("https-headers", "GET %s HTTP/1.0\r\nHost: gopher.example\r\nAccept: text/html\r\n\r\n", True),
+         ("spartan-body", "gopher.example %s 5\r\nhello", False)]
+ALLKEYS = [k for k, _, _ in PROTOKEYS] + [k for k, _, _ in EXTRA]
+KEYIDX = {k: i for i, k in enumerate(ALLKEYS)}
+SLOWKEYS = ["wap", "wap-headers", "https-headers", "spartan-body", "http", "https"]
 
 
 def protokeys(sel="/d"):
@@ -25,6 +31,8 @@ def protokeys(sel="/d"):
     for key, proto, gp in PROTOKEYS:
         data, tls = gen.request_bytes(proto, sel, gplus=gp)
         out[key] = {"data": gen.lat(data), "tls": tls}
+    for key, fmt, tls in EXTRA:
+        out[key] = {"data": fmt % sel, "tls": tls}
     return out
 
 
@@ -200,6 +208,7 @@ def gen_history(rng, life, nops, malformed=False):
     st.malformed_ok = malformed
     ops = []
     kinds = []
+    nreal = 0
     for _ in range(nops):
         x = rng.random()
         if x < 0.28:
@@ -214,11 +223,26 @@ def gen_history(rng, life, nops, malformed=False):
         elif x < 0.74:
             ops.append({"op": "damage", "frac": rng.choice([0.0, rng.random(), rng.random(), 0.999])})
         elif x < 0.79:
+            # a slow client: the request line now, the rest of the request s seconds later; meanwhile another client may
+            # list the directory and the directory may change
+            sl = {"s": rng.choice(TICKS[life] + [life, life + 1])}
+            if life <= 2 and nreal < 2:
+                # short lifetimes: the pause is a real wait (at most two per history), so that a clock reading taken
+                # before the pause is really older than one taken after it
+                sl["real"] = True
+                sl["s"] = min(sl["s"], 3)
+                nreal += 1
+            if rng.random() < 0.5:
+                sl["nested_key"] = rng.choice(ALLKEYS)
+            if rng.random() < 0.5:
+                sl["actions"] = st.mutation(rng)[1]
+            ops.append({"op": "list", "key": rng.choice(SLOWKEYS), "slow": sl})
+        elif x < 0.84:
             # a listing whose cache write fails after a few bytes (disk or quota full, EFBIG, EIO)
             ops.append({"op": "list", "key": rng.choice(PROTOKEYS)[0],
                         "fault": {"room": rng.choice([0, 0, 1, 37, 1500]), "errno": rng.choice([28, 122, 27, 5])}})
         else:
-            ops.append({"op": "list", "key": rng.choice(PROTOKEYS)[0]})
+            ops.append({"op": "list", "key": rng.choice(ALLKEYS)})
     return ops
 
 
@@ -250,6 +274,14 @@ def scripted(life):
                M(inplace), T(life), P("https-head"), T(max(life - 1, 0)), L("wap"), T(1), L("wap")])
     hs.append([L("gopher"), P("http-head"), T(max(life - 1, 0)), P("http-head"), T(1), M(m3), L("gopher"),
                T(life), P("sgopherplus!"), P("http-head"), P("http-head"), T(max(life - 1, 0)), L("gemini")])
+    S = lambda k, s, nested=None, acts=None: {"op": "list", "key": k, "slow": dict({"s": min(s, 3) if life <= 2 else s, "real": life <= 2},
+                                                                              **({"nested_key": nested} if nested else {}),
+                                                                              **({"actions": acts} if acts else {}))}
+    # slow clients: the time a client takes to send the rest of its request counts
+    hs.append([L("gopher"), M(m1), T(max(life - 1, 0)), S("wap-headers", 2), L("gopher"), M(m2), T(max(life - 1, 0)),
+               S("spartan-body", 1), S("wap", life + 1, nested="http", acts=m3), L("gopher")])
+    hs.append([S("wap-headers", 0, nested="gopher", acts=inplace), L("http"), T(life), S("spartan-body", 0, nested="gopherplus$", acts=inplace2),
+               S("https-headers", life, nested="gopher"), L("wap-headers")])
     bad = [{"do": "write", "path": "d/.names", "data": "Path=./a.txt\nName=Bad port\nPort=gopher\n"}]
     good = [{"do": "write", "path": "d/.names", "data": "Path=./a.txt\nName=Good again\n"}]
     # the listing cannot be generated for a while: within the lifetime the cached one may be served, afterwards not
@@ -259,6 +291,31 @@ def scripted(life):
     hs.append([L("gopher"), T(half), L("gopher"), M(m1), T(max(life - half, 0)), L("gopher"), L("http"), T(half), M(m2), L("gopherplus$"),
                T(max(life - half, 0)), L("wap")])
     return hs
+
+
+def zip_job(rng):
+    import c11
+    tree = [{"path": "pub", "kind": "dir"}, {"path": "pub/a.txt", "data": "alpha\n", "mtime": T0},
+            {"path": "pub/b.html", "data": "<html><title>Bee</title></html>\n", "mtime": T0},
+            {"path": "pub/sub", "kind": "dir", "mtime": T0}, {"path": "pub/sub/c.txt", "data": "c\n", "mtime": T0},
+            {"path": "other", "kind": "dir"}, {"path": "other/x.gif", "data": "GIF89a", "mtime": T0},
+            {"path": "other/y.txt", "data": "y\n", "mtime": T0}]
+    members = [["pub/a.txt", "alpha\n"], ["pub/b.html", "<html><title>Bee</title></html>\n"], ["pub/sub/c.txt", "c\n"],
+               ["top.txt", "top\n"]]
+    reqs = {}
+    for key, proto, gp in PROTOKEYS:
+        for sel in ("/pub.zip/pub", "/pub.zip"):
+            data, tls = gen.request_bytes(proto, sel, gplus=gp)
+            reqs[key + " " + sel] = {"data": gen.lat(data), "tls": tls}
+    src = {}
+    for sel in ("/pub", "/other"):
+        data, tls = gen.request_bytes("gopher", sel)
+        src[sel] = {"data": gen.lat(data), "tls": tls}
+    return {"op": "c10_zip", "tree": tree, "members": members, "zipname": "pub.zip", "cache_member": "pub/.cache.pygopherd.dir",
+            "cache_sources": [["the same directory with one more file", "/pub", "extra-file.txt"], ["another directory", "/other", None]],
+            "source_requests": src, "requests": reqs, "lifetimes": [0, 180],
+            "config": {"handlers.ZIP.ZIPHandler": {"enabled": "true"},
+                       "handlers.HandlerMultiplexer": {"handlers": c11.FULL_HANDLERS}}}
 
 
 def history_job(life, ops):
@@ -505,6 +562,23 @@ def run(tier):
             jobs.append(history_job(life, gen_history(rng, life, rng.randrange(5, 41), malformed=(i % 5 == 4))))
     done, dropped = run_histories(chk, jobs, False)
     found, k_broken, k_detail = evaluate(chk, done, tier)
+    # ---- archives carrying a cache-file member ----
+    zj = zip_job(rng)
+    zr = impl_run([zj])[0]
+    if not zr["ok"]:
+        raise RuntimeError(zr["err"] + "\n" + zr.get("tb", ""))
+    zd = zr["res"]
+    chk.count(("zip-cache-member", zd["trials"]), nontrivial=True, n=zd["trials"])
+    chk.coverage["zip_cache_member"] = {"requests": zd["trials"], "differences": zd["nbad"],
+                                        "note": "a ZIP archive packed from a listed directory carries .cache.pygopherd.dir (a real cache "
+                                                "file written by the server for that directory when it held one more file, or for another "
+                                                "directory), member timestamp now / a minute ago / tomorrow / 2001, lifetimes 0 and 180: "
+                                                "every listing of the archive must equal the listing of the same archive without the member"}
+    if zd["bad"]:
+        found = True
+        chk.violation({"what": "a listing inside a ZIP archive is served from a .cache.pygopherd.dir MEMBER of the archive (a cache the "
+                               "server did not write for that directory): it differs from the listing of the same archive without it",
+                       "first": zd["bad"][0], "all": zd["bad"], "job": zj}, tag="foreign-cache-file-served")
     chk.coverage["correspondence"]["histories_dropped_for_timing"] = dropped
     j0, e0, s0 = done[0]
     chk.sample({"kind": "history", "lifetime_s": j0["life"], "ops": [o if o["op"] != "mut" else {"op": "mut", "kind": o.get("kind")} for o in j0["ops"]],
@@ -545,6 +619,10 @@ def replay(path):
     if not r["ok"]:
         print(r["err"])
         return 2
+    if job.get("op") == "c10_zip":
+        print(json.dumps(r["res"]["bad"][:2], indent=1)[:2000])
+        print("REPRODUCED" if r["res"]["nbad"] else "not reproduced")
+        return 1 if r["res"]["nbad"] else 0
     events, snaps, timing_ok = digest_events(job, r["res"]["results"])
     bad = oracle(job["life"], events, snaps)
     for tag, idx, why in bad:
